@@ -551,6 +551,10 @@ func (env *CEnv) evalBin(e *CExpr) V {
 	switch op {
 	case "==>":
 		l := env.evalPol(e.Args[0], true)
+		if l.K == KBool && l.T == "false" {
+			// the conclusion may name things that only exist when the premise holds (call_<name>_r<i>)
+			return vBool("true")
+		}
 		r := env.eval(e.Args[1])
 		if l.K != KBool || r.K != KBool {
 			cfail("==> on non-bool")
@@ -566,6 +570,10 @@ func (env *CEnv) evalBin(e *CExpr) V {
 		return vBool(eq(l.T, r.T))
 	case "&&", "||":
 		l := env.eval(e.Args[0])
+		if l.K == KBool && ((op == "&&" && l.T == "false") || (op == "||" && l.T == "true")) {
+			// the right operand may name things that only exist when the left one allows it (call_<name>_r<i>)
+			return vBool(l.T)
+		}
 		r := env.eval(e.Args[1])
 		if l.K != KBool || r.K != KBool {
 			cfail("%s on non-bool", op)
@@ -1337,6 +1345,9 @@ func (env *CEnv) ghostCall(e *CExpr) V {
 	}
 	sub := &CEnv{st: st, oldMem: env.oldMem, vars: vars, tparam: tp, fn: key, inOld: env.inOld}
 	for _, en := range con.Ensures {
+		if mentionsCallRecords(en.Expr) {
+			continue
+		}
 		t, err := sub.evalBool(en.Expr)
 		if err != nil {
 			cfail("ghost call %s: %v", key, err)
